@@ -40,12 +40,25 @@ class QuadraticBezier(ArcLengthMixin, Segment):
 
     def tOfPoint(self, p):
         """Returns the time t (0->1) of a point on the curve."""
-        xroots = quadraticRoots(
+
+        def roots(a, b, c):
+            found = quadraticRoots(a, b, c)
+            if not found and a != 0.0:
+                # Where this coordinate turns round, the point's parameter is
+                # a double root: the discriminant vanishes up to rounding
+                disc = b * b - 4 * a * c
+                if abs(disc) <= 1e-9 * max(b * b, abs(4 * a * c)):
+                    t = -b / (2 * a)
+                    if 0.0 <= t <= 1.0:
+                        found = [t]
+            return found
+
+        xroots = roots(
             self[0].x - 2 * self[1].x + self[2].x,
             2 * (self[1].x - self[0].x),
             self[0].x - p.x,
         )
-        yroots = quadraticRoots(
+        yroots = roots(
             self[0].y - 2 * self[1].y + self[2].y,
             2 * (self[1].y - self[0].y),
             self[0].y - p.y,
